@@ -409,6 +409,8 @@ package classifier
 //@   modifies nothing
 //@   props C10 C09 C02 C04
 //@
+//@ ghostvar soG int
+//@ ghostvar eoG int
 //@ func (*Classifier).score
 //@   requires c != nil && unknown != nil && known != nil && known.s != nil && unknown.dict != nil
 //@   requires 0 <= unknownStart && unknownStart <= unknownEnd && unknownEnd <= cap(unknown.runes)
@@ -417,6 +419,15 @@ package classifier
 //@   ensures !isNaN(result0) && result0 <= 1.0
 //@   ensures result0 == 0.0 || (lastDist >= 0 && result0 == confOf(len(known.Tokens), lastDist))
 //@   ghostset lastDist = result after scoreDiffs
+//@   // C02: the span offsets are the word counts of exactly the diffs that were
+//@   // cut off before scoring: what is scored is diffs[start:end], what is
+//@   // trimmed from the span is diffs[:start] and diffs[end:]
+//@   callreq scoreDiffs requires same(arg_diffs, diffs[start:end])
+//@   callreq textLength#1 requires same(arg_diffs, diffs[:start])
+//@   callreq textLength#2 requires same(arg_diffs, diffs[end:])
+//@   ghostset soG = result after textLength#1
+//@   ghostset eoG = result after textLength#2
+//@   ensures [offsets-are-trimmed-words] (result0 == 0.0 && result1 == 0 && result2 == 0) || (result1 == soG && result2 == eoG)
 //@   modifies nothing
 //@   props C10 C03 C02 C09 C04 C01
 //@
